@@ -325,3 +325,31 @@ def c15g(ctx):
             ctx.check(ok, '%s:forced-shutdown-only-before-raise' % fn.short, 'after shutdown(True) the consumer leaves by raising', fn, x,
                       fail='the pool is shut down (queues drained, workers stopped) and the consumer carries on: results of the remaining items are '
                            'lost or the consumer blocks on the result queue')
+
+
+@rule('C15.h', floor=2)
+def c15h(ctx):
+    """one result per input also on the shortcut: the "single call, no threads" shortcut of imap / starmap is taken only when the
+    number of *inputs* is one -- its test measures the same sequence the task list is built from (imap: zip(*args), i.e. the length
+    of an argument sequence; starmap: the list of argument tuples itself, not the length of the first tuple)"""
+    for m in ('imap', 'starmap'):
+        fn = ctx.fn(A + ':ThreadPool.' + m)
+        g = fn.cfg
+        single = g.find(lambda x: is_call(x, 'self._single_call'))
+        tasks = [c for x in fn.walk() if is_call(x, 'self.map_each') and x.args for c in [x.args[0]] if isinstance(c, (ast.ListComp, ast.GeneratorExp))]
+        if not single:
+            ctx.ok('ThreadPool.%s:no-shortcut' % m, 'no single-call shortcut', fn)
+            continue
+        if len(tasks) != 1:
+            raise Undecided('ThreadPool.%s: task list comprehension not found' % m)
+        it = tasks[0].generators[0].iter
+        if is_call(it, 'zip') and len(it.args) == 1 and isinstance(it.args[0], ast.Starred):
+            want = '%s[0]' % unparse(it.args[0].value)      # number of tuples zip() yields = length of (each) argument sequence
+        else:
+            want = unparse(it)
+        ok = True
+        for n, x in single:
+            ok = ok and g.guarded(n, lambda at: at.op == '==' and {unparse(at.left), unparse(at.right)} == {'len(%s)' % want, '1'}, True)
+        ctx.check(ok, 'ThreadPool.%s:shortcut-iff-one-input' % m, 'the single-call shortcut is guarded by len(%s) == 1' % want, fn,
+                  fail='the single-call shortcut is not guarded by the number of inputs (len(%s) == 1): several inputs whose first argument '
+                       'tuple has one element yield a single result' % want)
